@@ -199,6 +199,12 @@ where
             return Ok(());
         },
     };
+    if t.row_hash_model_mismatch {
+        // counted under the same 5% rule: the attacks still run (they can only be rejected if the
+        // transcript were wrong), the run ends inconclusive unless one of them is accepted
+        rec.class("replay_mismatch");
+        rec.class("replay_mismatch:row hashing model does not reproduce the honest leaves");
+    }
     let kind = s.below(10);
     let mut mutated = proof.clone();
     let what: String;
